@@ -15,7 +15,7 @@ from vlib.zonedrv import LineDriver
 from checks import calcommon as cc
 
 PID = "C20"
-TOOLS = ["dadd", "dconv", "ddiff", "dgrep", "dround", "dseq", "dsort", "dtest", "dzone"]
+TOOLS = ["dadd", "dconv", "ddiff", "dgrep", "dround", "dseq", "dsort", "dtest", "dzone"]      # import audit: strptime is a libc wrapper by design
 CLOCKS = [None, "0", "946684799", "951825600", "1341100800", "2147483648", "4102444799"]
 ENVS = [
     {},
@@ -85,6 +85,12 @@ def corpus(b, rng, quick):
         c.append((["dconv", "--base", "2012-07-15", "--from-zone", "Europe/Berlin", t], None))
         c.append((["dconv", "--base", "2012-01-15", "--zone", "America/New_York", t], None))
         c.append((["dadd", "--base", "2012-07-15", "--from-zone", "Australia/Sydney", t, "+1h"], None))
+    # the libc wrapper: the only tool that goes through strptime/strftime/tzset; its results must not follow an exported TZ either
+    for v in ("2020-07-01 00:00:00", "2012-01-15 23:59:59"):
+        c.append((["strptime", "-i", "%Y-%m-%d %H:%M:%S", "-f", "%s", v], None))
+        c.append((["strptime", "-i", "%Y-%m-%d %H:%M:%S", "-f", "%Y-%m-%dT%H:%M:%S %Z %z", v], None))
+        c.append((["strptime", "-i", "%Y-%m-%d %H:%M:%S", "-t", v], None))
+        c.append((["strptime", "-i", "%Y-%m-%d %H:%M:%S", v], None))
     # underspecified input with --base
     for base in ("2012-01-15", "2012-07-15", "1999-12-31"):
         c.append((["dconv", "--base", base, "-i", "%d", "17"], None))
